@@ -93,7 +93,8 @@ class HookDispatch(Harness):
                  "(2+1 steps), markets M0 + index market, 2 agents (scripted buy/sell/cancel)",
         "thorough": "adds [t1,t2,t3] lists and probe listed in the second session",
     }
-    assumptions = ("the scripted run is small and mostly concrete (orders at fixed crossing prices); the subject is "
+    assumptions = (rn.REDUCTION_NOTE,
+                   "the scripted run is small and mostly concrete (orders at fixed crossing prices); the subject is "
                    "the dispatch of hooks, symbolic are the hook specifications",)
     outside = ("more than 3 time entries per hook / 2 hooks per event", "hook types beyond the 5 kinds pams defines",
                "time lists not in non-decreasing order")
@@ -320,7 +321,8 @@ class FundamentalShock(Harness):
                        "0..2, window 1..3, enabled true/false, no orders; generation chunk 100 or shrunk to 2 steps "
                        "(chunk boundaries after the shock)",
               "thorough": "same plus a drifting market and scripted orders"}
-    assumptions = ("priceChangeRate is passed to the real setup() as a solver real (setup stores it unchecked)",
+    assumptions = (rn.REDUCTION_NOTE,
+                   "priceChangeRate is passed to the real setup() as a solver real (setup stores it unchecked)",
                    "zero volatility so that regeneration after the shock involves no sampling")
     agreement_runs = 6
 
@@ -385,7 +387,8 @@ class MistakeShock(Harness):
                        "+/-/0, 2 agents quoting one limit order each per step (agent 0 buys, agent 1 sells, a third agent "
                        "either; market solver-chosen, price 10 off the market price) in the step before and at the trigger time",
               "thorough": "3 agents"}
-    assumptions = ("OrderMistakeShock.setup() is given a concrete float rate (it type-checks); the attribute is "
+    assumptions = (rn.REDUCTION_NOTE,
+                   "OrderMistakeShock.setup() is given a concrete float rate (it type-checks); the attribute is "
                    "then overwritten with a solver real of the same sign class",)
     agreement_runs = 6
 
@@ -554,7 +557,8 @@ class LimitRuleRun(Harness):
                        "2 agents (buyer, seller) quoting once each at t=1 (one case at t=0, one with market orders) on a "
                        "solver-chosen market, price in [1,1000]",
               "thorough": "adds quoting over two steps"}
-    assumptions = ("PriceLimitRule.setup() is given a concrete float rate; the attribute is overwritten with a solver real in (0,1)",)
+    assumptions = (rn.REDUCTION_NOTE,
+                   "PriceLimitRule.setup() is given a concrete float rate; the attribute is overwritten with a solver real in (0,1)",)
     agreement_runs = 6
 
     def cases(self, tier):
@@ -674,7 +678,8 @@ class HaltTiming(Harness):
                        "execution] / [2 steps, 2 steps without execution], 2 agents quoting from step 1 on (buy/sell; "
                        "solver-chosen prices in [1,1000] at step 1, 300 afterwards), rate r in (0,1)",
               "thorough": "5-step session with solver-chosen prices again at step 3 (second halt against the doubled line), L=1"}
-    assumptions = ("TradingHaltRule.setup() gets a concrete float rate; the attribute is overwritten with a solver real in (0,1)",)
+    assumptions = (rn.REDUCTION_NOTE,
+                   "TradingHaltRule.setup() gets a concrete float rate; the attribute is overwritten with a solver real in (0,1)",)
     agreement_runs = 6
 
     def cases(self, tier):
@@ -808,6 +813,7 @@ class HaltTiming(Harness):
 
 class RoundsUnderHalt(Harness):
     """C03 at system level: with a trading halt rule configured, the rounds the runner starts never fail."""
+    assumptions = (rn.REDUCTION_NOTE,)
     name = "RoundsUnderHalt"
     title = "matching rounds started by the real runner around a trading halt terminate without raising"
     what_symbolic = "prices of the orders of the step in which the halt may fire, the halt rate, activation order"
